@@ -4,6 +4,7 @@ import (
 	"context"
 	"runtime"
 	"sync/atomic"
+	"time"
 
 	eventbus "github.com/jilio/ebu"
 	"verif/vkit"
@@ -21,6 +22,11 @@ type RaceCase struct {
 	Procs   int  `json:"procs"`
 	Ctx     bool `json:"ctx,omitempty"`
 	Shutdown bool `json:"shutdown,omitempty"` // end every 16th round with Shutdown instead of Wait
+	// Mode "" publishes a second event while the first handler finishes and
+	// waits; "last" calls Wait (after a varying spin of its own) while the
+	// only in-flight handler is finishing, with no further publish.
+	Mode     string `json:"mode,omitempty"`
+	WaitSpin int    `json:"wait_spin,omitempty"`
 }
 
 type rev struct {
@@ -31,12 +37,44 @@ type rev struct {
 var sink atomic.Int64
 
 func RunRace(c *RaceCase) *vkit.Outcome {
-	o := &vkit.Outcome{}
 	if c.Procs > 0 {
 		defer runtime.GOMAXPROCS(runtime.GOMAXPROCS(c.Procs))
 	}
+	var finished, expectedNow, round atomic.Int64
+	done := make(chan *vkit.Outcome, 1)
+	go func() { done <- runRace(c, &finished, &expectedNow, &round) }()
+	// hang oracle: every invocation has finished, nothing has moved for 40 s
+	// and the publisher is still inside Wait
+	tick := time.NewTicker(time.Second)
+	defer tick.Stop()
+	lastF, lastR, stable := int64(-1), int64(-1), 0
+	for {
+		select {
+		case o := <-done:
+			return o
+		case <-tick.C:
+			f, e, r := finished.Load(), expectedNow.Load(), round.Load()
+			if f == e && f == lastF && r == lastR {
+				stable++
+			} else {
+				stable = 0
+			}
+			lastF, lastR = f, r
+			if stable >= 40 {
+				buf := make([]byte, 1<<16)
+				buf = buf[:runtime.Stack(buf, true)]
+				o := &vkit.Outcome{}
+				o.Failf("", "round %d: every asynchronous invocation has finished (%d of %d) and Wait has not returned for 40 s; goroutines:\n%s", r, f, e, buf)
+				return o
+			}
+		}
+	}
+}
+
+func runRace(c *RaceCase, finishedP, expectedP, roundP *atomic.Int64) *vkit.Outcome {
+	o := &vkit.Outcome{}
 	bus := eventbus.New()
-	var finished atomic.Int64
+	finished := finishedP
 	sig := make(chan struct{}, 1)
 	body := func(e rev) {
 		if e.Quick {
@@ -44,7 +82,7 @@ func RunRace(c *RaceCase) *vkit.Outcome {
 			for i := 0; i < e.Spin; i++ {
 				sink.Add(1)
 			}
-		} else {
+		} else if e.Spin >= 0 {
 			for i := 0; i < c.Slow; i++ {
 				runtime.Gosched()
 			}
@@ -62,11 +100,45 @@ func RunRace(c *RaceCase) *vkit.Outcome {
 		if c.SpinMax > 0 {
 			spin = (r * 37) % c.SpinMax
 		}
+		roundP.Store(int64(r))
+		if c.Mode == "free" {
+			// no handshake at all: publish to a trivial handler, let a varying
+			// amount of time pass, wait
+			eventbus.Publish(bus, rev{Spin: -1})
+			expected++
+			expectedP.Store(expected)
+			acc := 0
+			for i, n := 0, (r*31+c.WaitSpin)%1031; i < n; i++ {
+				acc += i
+			}
+			if acc < 0 {
+				runtime.Gosched()
+			}
+			bus.Wait()
+			if got := finished.Load(); got != expected {
+				o.Failf("", "round %d: Wait returned with %d of %d asynchronous invocations finished", r, got, expected)
+				for finished.Load() != expected {
+					runtime.Gosched()
+				}
+				return o
+			}
+			continue
+		}
 		eventbus.Publish(bus, rev{Quick: true, Spin: spin})
 		expected++
+		expectedP.Store(expected)
 		<-sig
-		eventbus.Publish(bus, rev{})
-		expected++
+		if c.Mode == "last" {
+			if c.WaitSpin > 0 {
+				for i, n := 0, (r*53)%c.WaitSpin; i < n; i++ {
+					sink.Add(1)
+				}
+			}
+		} else {
+			eventbus.Publish(bus, rev{})
+			expected++
+			expectedP.Store(expected)
+		}
 		bus.Wait()
 		if got := finished.Load(); got != expected {
 			o.Failf("", "round %d (spin %d): Wait returned with %d of %d asynchronous invocations finished (a publish that returned before Wait was called is still running)", r, spin, got, expected)
@@ -77,9 +149,16 @@ func RunRace(c *RaceCase) *vkit.Outcome {
 			return o
 		}
 	}
+	roundP.Store(int64(c.Rounds))
 	o.Nontrivial = c.Rounds >= 2
 	if o.Nontrivial {
-		o.Class("publish_while_last_handler_finishes")
+		if c.Mode == "free" {
+			o.Class("publish_then_wait_with_varying_distance")
+		} else if c.Mode == "last" {
+			o.Class("wait_called_while_last_handler_finishes")
+		} else {
+			o.Class("publish_while_last_handler_finishes")
+		}
 	}
 	return o
 }
